@@ -85,16 +85,27 @@ theorem ctor_once_per_live_period {s : G} (h : Reachable s) {e : Nat} (he : e < 
 /-- **destructor once, after the last release.** The destructor of an entry's value runs at most
     once; it has run, or a `Delete` call is on its way to run it (`del2`/`del3`), only if the entry
     left the map at reference count 0 with no holder and nobody waiting for it; and for every
-    such released entry exactly one `Delete` call owns the (single) destructor call. -/
+    such released entry exactly one `Delete` call owns the (single) destructor call — or, for a
+    value that is not a Destructor (`plain`: a reverse-proxy *Host, listenerPool's nil), the single
+    decision that there is nothing to destruct (`skipped`); such a value is never destructed. -/
 theorem dtor_exactly_once_after_last_release {s : G} (h : Reachable s) {e : Nat} (he : e < s.next) :
     (s.ent e).destructed ≤ 1
-    ∧ (0 < (s.ent e).del2 + (s.ent e).del3 + (s.ent e).destructed →
+    ∧ (0 < (s.ent e).del2 + (s.ent e).del3 + (s.ent e).destructed + (s.ent e).skipped →
         (s.ent e).holders = 0 ∧ (s.ent e).refs = 0 ∧ inPool s e = false
         ∧ (s.ent e).waiters = 0 ∧ (s.ent e).lsWaiters = 0)
     ∧ (inPool s e = false → (s.ent e).err = false →
-        (s.ent e).del2 + (s.ent e).del3 + (s.ent e).destructed = 1) := by
+        (s.ent e).del2 + (s.ent e).del3 + (s.ent e).destructed + (s.ent e).skipped = 1)
+    ∧ ((s.ent e).plain = true → (s.ent e).destructed = 0 ∧ (s.ent e).del3 = 0)
+    ∧ ((s.ent e).plain = false → (s.ent e).skipped = 0) := by
   have hE := (inv_reachable h).ent e he
-  refine ⟨(ent_once hE).1, ?_, ?_⟩
+  refine ⟨(ent_once hE).1, ?_, ?_, ?_, ?_⟩
+  rotate_left 2
+  · intro hp
+    obtain ⟨_, _, _, _, _, _, _, _, _, _, h11, _⟩ := hE
+    exact ⟨(h11 hp).2.1, (h11 hp).1⟩
+  · intro hp
+    obtain ⟨_, _, _, _, _, _, _, _, _, _, _, h12⟩ := hE
+    exact h12 hp
   · intro hd
     obtain ⟨hm, _, hh, hr, hw, hl, _, _, _⟩ := ent_dying_facts hE hd
     exact ⟨hh, hr, hm, hw, hl⟩
@@ -105,8 +116,9 @@ theorem dtor_exactly_once_after_last_release {s : G} (h : Reachable s) {e : Nat}
     run exactly once -/
 theorem released_entry_destructed_at_quiescence {s : G} (h : Reachable s) {e : Nat} (he : e < s.next)
     (hm : inPool s e = false) (herr : (s.ent e).err = false)
-    (hq : (s.ent e).del2 = 0 ∧ (s.ent e).del3 = 0) : (s.ent e).destructed = 1 := by
-  have := (dtor_exactly_once_after_last_release h he).2.2 hm herr
+    (hq : (s.ent e).del2 = 0 ∧ (s.ent e).del3 = 0) (hp : (s.ent e).plain = false) : (s.ent e).destructed = 1 := by
+  have := (dtor_exactly_once_after_last_release h he).2.2.1 hm herr
+  have := (dtor_exactly_once_after_last_release h he).2.2.2.2 hp
   omega
 
 /-! ### what callers receive -/
@@ -343,7 +355,9 @@ theorem progress {s : G} (h : Reachable s) {e : Nat} (he : e < s.next) :
     refine ⟨?_, ?_, ?_⟩
     · intro hh; simp only [gstep, he, hh, hw, and_self, if_true]; split <;> rfl
     · intro v hh; simp only [gstep, he, hh, hw, and_self, if_true]; split <;> rfl
-    · intro hh; simp only [gstep, he, hh, hw, and_self, if_true]; split <;> rfl
+    · intro hh; simp only [gstep, he, hh, hw, and_self, if_true]; split
+      · rfl
+      · split <;> rfl
   · intro hw
     obtain ⟨_, h2, _⟩ := hE
     rw [hw] at h2; simpa using h2
@@ -465,14 +479,18 @@ theorem client_holds_live_value (nk : Nat) (progs : List (List Op)) (sched : Lis
   exact ⟨he, hm, hv, hd, h2', h3⟩
 
 /-- **a value is closed iff no client holds it** (when no call is in flight on its entry): its
-    destructor has run — exactly once — if and only if no thread remembers a reference to it;
+    destructor has run — exactly once — if and only if no thread remembers a reference to it
+    (for a value that is not a Destructor: the pool has let go of it, `skipped = 1`, iff …);
     and then the entry is no longer in the map -/
 theorem closed_iff_no_client_holds (nk : Nat) (progs : List (List Op)) (sched : List Nat)
     (hc : (runSched nk progs sched).clean = true) {e : Nat} (he : e < (runSched nk progs sched).g.next)
     (hv : ((runSched nk progs sched).g.ent e).value.isSome = true)
     (hq : quietEntry ((runSched nk progs sched).g.ent e)) :
-    (((runSched nk progs sched).g.ent e).destructed = 1 ↔ holdCount (runSched nk progs sched).threads e = 0)
-    ∧ (holdCount (runSched nk progs sched).threads e = 0 → inPool (runSched nk progs sched).g e = false) := by
+    (((runSched nk progs sched).g.ent e).destructed + ((runSched nk progs sched).g.ent e).skipped = 1
+        ↔ holdCount (runSched nk progs sched).threads e = 0)
+    ∧ (holdCount (runSched nk progs sched).threads e = 0 → inPool (runSched nk progs sched).g e = false)
+    ∧ (((runSched nk progs sched).g.ent e).plain = false →
+        (((runSched nk progs sched).g.ent e).destructed = 1 ↔ holdCount (runSched nk progs sched).threads e = 0)) := by
   have hb := books_runSched nk progs sched
   have hi := inv_reachable (runSched_reachable nk progs sched hc)
   rw [← hb.count e he]
@@ -486,7 +504,7 @@ theorem all_clients_released_pool_empty (nk : Nat) (progs : List (List Op)) (sch
     (hq : ∀ e, e < (runSched nk progs sched).g.next → quietEntry ((runSched nk progs sched).g.ent e)) :
     (∀ k, (runSched nk progs sched).g.pool k = none)
     ∧ ∀ e, e < (runSched nk progs sched).g.next → ((runSched nk progs sched).g.ent e).value.isSome = true →
-        ((runSched nk progs sched).g.ent e).destructed = 1 := by
+        ((runSched nk progs sched).g.ent e).destructed + ((runSched nk progs sched).g.ent e).skipped = 1 := by
   have hb := books_runSched nk progs sched
   have hi := inv_reachable (runSched_reachable nk progs sched hc)
   have hzero : ∀ e, holdCount (runSched nk progs sched).threads e = 0 :=
